@@ -1,6 +1,7 @@
 package props
 
 import (
+	"fmt"
 	"go/ast"
 	"go/constant"
 	"go/token"
@@ -9,6 +10,7 @@ import (
 	"strings"
 
 	"verif/checker/core"
+	"verif/checker/flow"
 )
 
 func init() { register("C18", c18) }
@@ -96,6 +98,8 @@ func allDigits(s string) bool {
 
 func c18(p *core.Program, r *core.Report) {
 	r.Rule("R1", "view-name layout agreement: the set of compact (digits-only) reference-time layouts passed to time.Time.Format in package pilosa (the writers of time-view names) equals the set passed to time.Parse (the readers), after constant folding of local strings and constant slices; and a switch on len(<time part>) in a reader covers exactly the lengths the writers produce")
+	r.Rule("R2", "a requested time range is answered from the time views: in every function that parses from/to arguments, a fragment read on a path where a parsed time is known to be set (or the field has no standard view) uses a view name produced by viewsByTimeRange on that path -- never the standard view, which also holds bits set without a timestamp")
+	c18RangeViews(p, r)
 	r.NotDecided = "that viewsByTimeRange yields a disjoint exact cover of every aligned range (calendar arithmetic on runtime values)"
 	pk := p.Pkg("")
 	if pk == nil {
@@ -194,4 +198,116 @@ func c18(p *core.Program, r *core.Report) {
 		})
 	}
 	_ = token.NoPos
+}
+
+// c18RangeViews: R2.
+func c18RangeViews(p *core.Program, r *core.Report) {
+	pk := p.Pkg("")
+	info := pk.TypesInfo
+	n := 0
+	for _, fd := range core.AllFuncDecls(pk) {
+		if fd.Body == nil || strings.HasSuffix(p.Fset.Position(fd.Pos()).Filename, "_test.go") {
+			continue
+		}
+		parses := false
+		ast.Inspect(fd.Body, func(nd ast.Node) bool {
+			if c, ok := nd.(*ast.CallExpr); ok {
+				if fn := core.CalleeOf(info, c); fn != nil && fn.Name() == "parseTime" && fn.Pkg() == pk.Types {
+					parses = true
+				}
+			}
+			return true
+		})
+		if !parses || fd.Name.Name == "parseTime" {
+			continue
+		}
+		n++
+		construct := core.FuncName(fd) + " range views"
+		// slice variables assigned from viewsByTimeRange, and range variables over them
+		const (
+			bQ flow.State = 1 << iota // a time range is requested on this path
+			bA                        // the views variable holds viewsByTimeRange's result
+		)
+		viewsVars := map[types.Object]bool{}
+		ast.Inspect(fd.Body, func(nd ast.Node) bool {
+			if as, ok := nd.(*ast.AssignStmt); ok && len(as.Lhs) == 1 && len(as.Rhs) == 1 {
+				if c, ok := ast.Unparen(as.Rhs[0]).(*ast.CallExpr); ok {
+					if fn := core.CalleeOf(info, c); fn != nil && fn.Name() == "viewsByTimeRange" {
+						if id, ok := ast.Unparen(as.Lhs[0]).(*ast.Ident); ok {
+							viewsVars[info.ObjectOf(id)] = true
+						}
+					}
+				}
+			}
+			return true
+		})
+		rangeVars := map[types.Object]bool{}
+		ast.Inspect(fd.Body, func(nd ast.Node) bool {
+			if rs, ok := nd.(*ast.RangeStmt); ok {
+				if id, ok := ast.Unparen(rs.X).(*ast.Ident); ok && viewsVars[info.ObjectOf(id)] {
+					if v, ok := rs.Value.(*ast.Ident); ok {
+						rangeVars[info.ObjectOf(v)] = true
+					}
+				}
+			}
+			return true
+		})
+		var bad []string
+		nSinks := 0
+		h := flow.Hooks{Info: info}
+		h.Atom = func(nd ast.Node, s flow.State) []flow.State {
+			switch x := nd.(type) {
+			case *ast.AssignStmt:
+				if len(x.Lhs) == 1 && len(x.Rhs) == 1 {
+					if id, ok := ast.Unparen(x.Lhs[0]).(*ast.Ident); ok && viewsVars[info.ObjectOf(id)] {
+						if c, ok := ast.Unparen(x.Rhs[0]).(*ast.CallExpr); ok {
+							if fn := core.CalleeOf(info, c); fn != nil && fn.Name() == "viewsByTimeRange" {
+								return []flow.State{s | bA}
+							}
+						}
+						return []flow.State{s &^ bA}
+					}
+				}
+			case *ast.CallExpr:
+				fn := core.CalleeOf(info, x)
+				if fn != nil && fn.Name() == "fragment" && recvNamed(fn, "Holder") && len(x.Args) == 4 {
+					nSinks++
+					if s&bQ == 0 {
+						return []flow.State{s}
+					}
+					arg := ast.Unparen(x.Args[2])
+					if id, ok := arg.(*ast.Ident); ok {
+						if c, isConst := info.ObjectOf(id).(*types.Const); isConst && c.Name() == "viewStandard" {
+							bad = append(bad, p.Pos(x.Pos())+": reads the standard view although a time range is requested")
+						} else if rangeVars[info.ObjectOf(id)] && s&bA == 0 {
+							bad = append(bad, p.Pos(x.Pos())+": reads views that were not computed by viewsByTimeRange on this path although a time range is requested")
+						}
+					}
+				}
+			}
+			return []flow.State{s}
+		}
+		h.Refine = func(cond ast.Expr, taken bool, s flow.State) (flow.State, bool) {
+			c := ast.Unparen(cond)
+			if call, ok := c.(*ast.CallExpr); ok {
+				if fn := core.CalleeOf(info, call); fn != nil && fn.Name() == "IsZero" && fn.Pkg() != nil && fn.Pkg().Path() == "time" && !taken {
+					return s | bQ, true
+				}
+			}
+			if sel, ok := c.(*ast.SelectorExpr); ok && sel.Sel.Name == "NoStandardView" && taken {
+				return s | bQ, true
+			}
+			return s, true
+		}
+		it := flow.Run(h, fd.Body, 0)
+		switch {
+		case it.Unsupported != "":
+			r.Undecide("R2", construct, p.Pos(fd.Pos()), it.Unsupported)
+		case len(bad) > 0:
+			r.Violate("R2", construct, p.Pos(fd.Pos()), strings.Join(dedupe(bad), "; ")+" -- columns (or rows) whose bits carry no timestamp in the range are returned")
+		default:
+			r.HoldAt("R2", construct, p.Pos(fd.Pos()), fmt.Sprintf("%d fragment read(s); whenever a range is requested the views come from viewsByTimeRange", nSinks))
+		}
+	}
+	r.Floor("C18/R2 functions answering from/to", n, 2)
 }
